@@ -9,10 +9,12 @@ import (
 	"strings"
 
 	"github.com/bufbuild/protocompile/linker"
+	"github.com/pentops/golib/gl"
 	"github.com/pentops/j5/gen/j5/sourcedef/v1/sourcedef_j5pb"
 	"github.com/pentops/j5/internal/j5s/j5convert"
 	"github.com/pentops/log.go/log"
 	"golang.org/x/exp/maps"
+	"google.golang.org/protobuf/types/descriptorpb"
 )
 
 func NewCircularDependencyError(chain []string, dep string) error {
@@ -298,6 +300,7 @@ func (ps *PackageSet) loadLocalPackage(ctx context.Context, rb *resolveBaton, na
 			}
 
 			for _, desc := range descs {
+				qualifyTypeNames(desc)
 				pkg.Files[desc.GetName()] = &SearchResult{
 					Summary: srcFile.Summary,
 					Desc:    desc,
@@ -357,4 +360,46 @@ func (ps *PackageSet) CompilePackage(ctx context.Context, packageName string) (l
 
 	cc := newLinker(ps, errs)
 	return cc.resolveAll(ctx, filenames)
+}
+
+// qualifyTypeNames rewrites the type names j5convert writes without a leading
+// dot into fully qualified names. j5convert refers to an inline type by its
+// path below the package ("Outer.Inner") and to a map entry by its bare name
+// inside the message holding the field. The linker resolves a name without a
+// leading dot from the innermost scope outwards, so a nested type that is
+// named like the root message ("Foo.Foo") captured the lookup: the file then
+// failed to link, or the field silently got another type.
+func qualifyTypeNames(fd *descriptorpb.FileDescriptorProto) {
+	pkgPrefix := "."
+	if fd.GetPackage() != "" {
+		pkgPrefix = "." + fd.GetPackage() + "."
+	}
+
+	var walk func(scope string, msg *descriptorpb.DescriptorProto)
+	walk = func(scope string, msg *descriptorpb.DescriptorProto) {
+		fullName := scope + msg.GetName()
+		nested := map[string]struct{}{}
+		for _, child := range msg.NestedType {
+			nested[child.GetName()] = struct{}{}
+		}
+		for _, field := range msg.Field {
+			typeName := field.GetTypeName()
+			if typeName == "" || strings.HasPrefix(typeName, ".") {
+				continue
+			}
+			if _, isNested := nested[typeName]; isNested {
+				// map entry of this message
+				field.TypeName = gl.Ptr(fullName + "." + typeName)
+			} else {
+				field.TypeName = gl.Ptr(pkgPrefix + typeName)
+			}
+		}
+		for _, child := range msg.NestedType {
+			walk(fullName+".", child)
+		}
+	}
+
+	for _, msg := range fd.MessageType {
+		walk(pkgPrefix, msg)
+	}
 }
